@@ -606,3 +606,11 @@ func Die() {
 	<-t.sem
 	panic(abortPanic{})
 }
+
+// EffectCount returns the number of persistent effects performed so far in this execution.
+func EffectCount() int {
+	if active == nil {
+		return 0
+	}
+	return active.effects
+}
